@@ -74,8 +74,13 @@ func mModel(pres [4]int, funcs []string, script, tag string, key bool) (trace []
 				o.Kind, o.Repr = "ok", `[`+str+`,1]`
 			case "nested-reset":
 				o.Kind, o.Repr = "ok", `["inner",`+str+`]`
-			case "panic-before", "panic-mid":
+			case "panic-before":
 				o.Kind = "panic"
+			case "panic-mid":
+				o.Kind = "panic"
+				if key {
+					o.Kind = "error" // the script's BeginArray is refused in name position and it returns that error
+				}
 			default: // zero two partial partial-arr popbelow unsup-after err-before err-mid err-after
 				o.Kind = "error"
 			}
